@@ -1,6 +1,6 @@
 (* C04ContainerProofs.v — box headers, DecodeBox / DecodeBoxSR and both container child loops:
    for every byte string the result is a box, EOF or an error, never Panic, fuel len+1 suffices, and
-   ticks + alloc <= 2*len + 10.  Leaf bodies are opaque: any leaf decoder satisfying leaf_ok. *)
+   ticks + alloc <= 2*len + 29 (SliceReader) / 6*len + 29 (io.Reader).  Leaf bodies are opaque: any leaf decoder satisfying leaf_ok. *)
 From V.lib Require Import Base.
 From V.c04 Require Import C04Model C04ReaderProofs.
 Open Scope Z_scope.
@@ -96,15 +96,16 @@ Hypothesis LD : leaf_ok ld.
 (* result contracts *)
 Definition box_post (s : sst) (r : res tree) (s' : sst) : Prop :=
   Inv (sr s') /\ rbuf (sr s') = rbuf (sr s) /\ rpos (sr s) <= rpos (sr s') /\
-  T (scost s') <= T (scost s) + 2 * (rpos (sr s') - rpos (sr s)) + 2 /\
+  T (scost s') <= T (scost s) + 2 * (rpos (sr s') - rpos (sr s)) + 29 /\
   (forall t, r = Ok t -> rpos (sr s) + 8 <= rpos (sr s') /\
                          T (scost s') <= T (scost s) + 2 * (rpos (sr s') - rpos (sr s)) - 2).
-Definition kids_post (s : sst) (s' : sst) : Prop :=
+Definition kids_post (s : sst) (r : res (list tree)) (s' : sst) : Prop :=
   Inv (sr s') /\ rbuf (sr s') = rbuf (sr s) /\ rpos (sr s) <= rpos (sr s') /\
-  T (scost s') <= T (scost s) + 2 * (rpos (sr s') - rpos (sr s)) + 3.
+  T (scost s') <= T (scost s) + 2 * (rpos (sr s') - rpos (sr s)) + 36 /\
+  (forall l, r = Ok l -> T (scost s') <= T (scost s) + 2 * (rpos (sr s') - rpos (sr s)) + 3).
 
 Ltac fin := repeat match goal with x := _ |- _ => subst x end;
-  unfold box_post, kids_post in *; cbn [scharge sr scost] in *; unfold Inv, rlen in *;
+  unfold box_post, kids_post in *; cbn [scharge sr scost] in *; unfold Inv, rlen, err_msg_ticks in *; rewrite ?T_tick in *;
   repeat split; try congruence; try lia; try (intros; discriminate).
 
 Lemma sr_loops : forall fuel,
@@ -113,7 +114,7 @@ Lemma sr_loops : forall fuel,
                   box_post s r s') /\
   (forall sp pos endPos initPos acc s, Inv (sr s) ->
      exists r s', children_sr ld fuel sp pos endPos initPos acc s = (r, s') /\ r <> Panic /\
-                  (rem s + 1 < Z.of_nat fuel -> r <> OutOfFuel) /\ kids_post s s').
+                  (rem s + 1 < Z.of_nat fuel -> r <> OutOfFuel) /\ kids_post s r s').
 Proof.
   induction fuel as [|f [IHb IHk]].
   { split; intros.
@@ -145,7 +146,7 @@ Proof.
       assert (T1 : T (scost s1') = T (scost s0) + 9) by (subst s1'; cbn [scharge scost]; rewrite T_alloc; lia).
       assert (I1' : Inv (sr s1')) by exact I1.
       destruct (IHk (addu64 sp 8) (addu64 sp 8) (addu64 sp (hsize h)) (rpos (sr s1)) [] s1' I1')
-        as [rk [s2 [Ek [NPk [Fk [I2 [B2 [P2 C2]]]]]]]]. rewrite Ek.
+        as [rk [s2 [Ek [NPk [Fk [I2 [B2 [P2 [C2 Q2]]]]]]]]]. rewrite Ek.
       assert (HF : rem s0 < Z.of_nat (S f) -> rem s1' + 1 < Z.of_nat f).
       { unfold rem, rlen. change (sr s1') with (sr s1). rewrite B1. lia. }
       destruct rk; try contradiction.
@@ -158,7 +159,7 @@ Proof.
       assert (T1 : T (scost s1') = T (scost s0) + 9) by (subst s1'; cbn [scharge scost]; rewrite T_alloc; lia).
       assert (I1' : Inv (sr s1')) by exact I1.
       destruct (IHk (addu64 sp 8) (addu64 sp 8) (addu64 sp (hsize h)) (rpos (sr s1)) [] s1' I1')
-        as [rk [s2 [Ek [NPk [Fk [I2 [B2 [P2 C2]]]]]]]]. rewrite Ek.
+        as [rk [s2 [Ek [NPk [Fk [I2 [B2 [P2 [C2 Q2]]]]]]]]]. rewrite Ek.
       assert (HF : rem s0 < Z.of_nat (S f) -> rem s1' + 1 < Z.of_nat f).
       { unfold rem, rlen. change (sr s1') with (sr s1). rewrite B1. lia. }
       destruct rk; try contradiction.
@@ -187,7 +188,7 @@ Proof.
       assert (I2' : Inv (sr s2)) by exact I1.
       destruct (int_of_u64 (subu64 (addu64 pos (tsize child)) sp) =? rpos (sr s2) - initPos).
       * destruct (IHk sp (addu64 pos (tsize child)) endPos initPos (child :: acc) s2 I2')
-          as [rk [s3 [Ek [NPk [Fk [I3 [B3 [P3 C3]]]]]]]]. rewrite Ek.
+          as [rk [s3 [Ek [NPk [Fk [I3 [B3 [P3 [C3 Q3]]]]]]]]]. rewrite Ek.
         assert (R2 : rem s2 + 8 <= rem s) by (unfold rem, rlen; change (sr s2) with (sr s1); rewrite B1; lia).
         eexists _, _. split; [reflexivity|]. split; [assumption|].
         split; [intros Hf; apply Fk; lia|]. fin.
@@ -280,17 +281,17 @@ Hypothesis LD : leaf_ok ld.
 Definition K : Z := 6.
 Definition rbox_post (s : ist) (r : res bout) (s' : ist) : Prop :=
   ibuf s' = ibuf s /\ ip s <= ip s' <= il s /\
-  T (icost s') <= T (icost s) + K * (ip s' - ip s) + 18 /\
+  T (icost s') <= T (icost s) + K * (ip s' - ip s) + 29 /\
   (forall t, r = Ok (BBox t) -> ip s + 8 <= ip s' /\ T (icost s') <= T (icost s) + K * (ip s' - ip s) - 2) /\
   (r = Ok BEof -> T (icost s') <= T (icost s) + 17).
 Definition rkids_post (s : ist) (r : res (list tree)) (s' : ist) : Prop :=
   ibuf s' = ibuf s /\ ip s <= ip s' <= il s /\
-  T (icost s') <= T (icost s) + K * (ip s' - ip s) + 19 /\
+  T (icost s') <= T (icost s) + K * (ip s' - ip s) + 52 /\
   (forall l, r = Ok l -> T (icost s') <= T (icost s) + K * (ip s' - ip s) + 18).
 Definition irem (s : ist) : Z := il s - ip s.
 
 Ltac rfin := repeat match goal with x := _ |- _ => subst x end;
-  unfold rbox_post, rkids_post, K, IInv, irem in *; cbn [icharge ibuf ipos icost] in *;
+  unfold rbox_post, rkids_post, K, IInv, irem, err_msg_ticks, ip, il in *; cbn [icharge ibuf ipos icost] in *; rewrite ?T_tick in *;
   repeat split; try congruence; try lia; try (intros; discriminate).
 
 Lemma r_loops : forall fuel,
@@ -351,7 +352,7 @@ Proof.
         assert (0 <= zlen data) by (unfold zlen; lia). unfold IInv, ip, il in *. lia. }
       destruct (sr_loops ld LD f) as [_ SK].
       destruct (SK (addu64 sp 8) (addu64 sp 8) (addu64 sp (hsize h)) 0 [] ss HIss)
-        as [rk [ss' [Ek [NPk [Fk [I3 [B3 [P3 C3]]]]]]]]. rewrite Ek.
+        as [rk [ss' [Ek [NPk [Fk [I3 [B3 [P3 [C3 Q3]]]]]]]]]. rewrite Ek.
       assert (Tss : T (scost ss) = T (icost s2) + 8) by (subst ss; cbn [scost]; rewrite T_alloc; lia).
       assert (Rss : rpos (sr ss') <= zlen data).
       { unfold Inv, rlen in I3. rewrite B3 in I3. change (rbuf (sr ss)) with data in I3. lia. }
@@ -447,7 +448,7 @@ Definition small (bs : list N) : bool := zlen bs <? two63.     (* every Go slice
 
 Theorem container_total_sr : forall ld, leaf_ok ld -> forall bs, small bs = true ->
   exists r s', box_sr ld bs = (r, s') /\ (r = Err \/ exists t, r = Ok t) /\
-               (tot (scost s') <= 2 * lenN bs + 2)%N.
+               (tot (scost s') <= 2 * lenN bs + 29)%N.
 Proof.
   intros ld LD bs Hs. unfold box_sr, small in *.
   destruct (sr_loops ld LD (S (length bs))) as [HB _].
@@ -462,7 +463,7 @@ Qed.
 
 Theorem container_total_r : forall ld, leaf_ok ld -> forall bs, small bs = true ->
   exists r s', box_r ld bs = (r, s') /\ (r = Err \/ r = Ok BEof \/ exists t, r = Ok (BBox t)) /\
-               (tot (icost s') <= 6 * lenN bs + 18)%N.
+               (tot (icost s') <= 6 * lenN bs + 29)%N.
 Proof.
   intros ld LD bs Hs. unfold box_r, small in *.
   destruct (r_loops ld LD (S (length bs))) as [HB _].
